@@ -18,6 +18,9 @@ func init() {
 	runner.Register("C20", runner.Scenario{Name: "limiter-stall", Options: func(string) simrt.Options {
 		return simrt.Options{MaxSteps: 40000, StallPermille: 40, StallMax: 3 * time.Millisecond}
 	}, Body: limiterBody})
+	runner.Register("C20", runner.Scenario{Name: "limiter-preempt", Options: func(string) simrt.Options {
+		return simrt.Options{MaxSteps: 40000, ParkPermille: 15}
+	}, Body: limiterBody})
 }
 
 // monitor counts holders as the property defines them: from the return of
